@@ -47,6 +47,7 @@ def gen_case(streams, tier):
     if kind == 'word':
         cfg = gen.make_cfg(nets=(3, 16), class_pool=['bit', 'small', 'mid', 'w64'],
                            dup_prob=0.25, dead_frac=0.3, const_reg_prob=0.3, const_bias=0.25,
+                           computed_const_prob=0.5,
                            mem_wide_aw=0.0, consts=(1, 4), regs=(0, 4))
     else:
         cfg = gen.make_cfg(nets=(2, 9), classes=g.choice([['bit', 'small'], ['bit']]),
